@@ -17,18 +17,25 @@
 (*  "D23a" look-up of an extension base is blind to the component kind: a   *)
 (*        global element of the same name that comes first is taken and     *)
 (*        nothing is inherited                                              *)
+(*  "D23c" a user type whose local name is that of an XSD builtin (date,    *)
+(*        string, ...) is taken for the builtin                             *)
 (* With D = {} the walk is the repaired code.                               *)
 (***************************************************************************)
 EXTENDS Schema
 
 Par(min, max) == [min |-> min, max |-> max]
 
+\* as_rust_type: "D23c" = the builtin table is consulted by local name only, whatever the prefix says
+BuiltTarget(S, f, it, ty, D) ==
+  IF "D23c" \in D /\ ty.k = "named" /\ ty.n \in Builtins THEN [k |-> "builtin", rust |-> Carrier(ty.n)]
+  ELSE TargetOf(S, f, it, ty)
+
 \* Field::try_from_node for a local element p under a particle with occurrence par
 MkField(S, f, it, p, par, inchoice, D) ==
   LET opt == p.min = 0 \/ par.min = 0
       vec == IF "D08" \in D THEN (p.max = "unb" \/ par.max = "unb") ELSE (p.max # "1" \/ par.max # "1")
       w == IF vec THEN "Vec" ELSE IF opt \/ (inchoice /\ "D09" \notin D) THEN "Option" ELSE "Bare"
-  IN [xml |-> p.n, attr |-> FALSE, w |-> w, target |-> TargetOf(S, f, it, p.ty), ns |-> f.tns]
+  IN [xml |-> p.n, attr |-> FALSE, w |-> w, target |-> BuiltTarget(S, f, it, p.ty, D), ns |-> f.tns]
 
 MkRefField(S, f, it, p, par, inchoice, D) ==
   LET opt == p.min = 0 \/ par.min = 0
@@ -40,7 +47,7 @@ MkRefField(S, f, it, p, par, inchoice, D) ==
 
 MkAttr(S, f, it, a, D) ==
   [xml |-> a.n, attr |-> TRUE, w |-> IF a.use = "req" THEN "Bare" ELSE "Option",
-   target |-> TargetOf(S, f, it, a.ty), ns |-> IF "D13" \in D THEN f.tns ELSE "unqualified"]
+   target |-> BuiltTarget(S, f, it, a.ty, D), ns |-> IF "D13" \in D THEN f.tns ELSE "unqualified"]
 
 \* import_sequence_node_fields: the children of one sequence/choice element whose own occurrence is `par`
 \* acc = occurrence accumulated from the enclosing particles (used by the repaired code only)
